@@ -37,6 +37,47 @@ Theorem C17_echo_latest : forall evs,
 Proof. exact (clean_kind V_echo). Qed.
 Print Assumptions C17_echo_latest.
 
+(* ares_addr_equal (the model of it: family, then 4 resp. all 16 address bytes) decides plain
+   equality of source addresses; the monitor's own notion [addr_same] is that plain equality *)
+Theorem C17_addr_equal_decides_equality : forall a b,
+  ip_known a -> ip_known b -> (addr_equal a b = true <-> a = b).
+Proof. exact addr_equal_iff. Qed.
+Print Assumptions C17_addr_equal_decides_equality.
+
+(* for ALL pairs of distinct source addresses (any family, any differing byte): the transmission
+   from b after the record belonged to a sends a client cookie generated at this step (the first
+   random block drawn now), no server cookie, and the record now belongs to b *)
+Theorem C17_rotation_on_any_source_change : forall ck rq a b now rnd,
+  rq <> NoOpt -> ip_known a -> ip_known b -> a <> b -> tv_ok now -> live_ok ck -> ck_client_ip ck = a ->
+  exists ck', cookie_apply ck rq false b now rnd = Ok (ck', OptCookie (rnd 0%nat ++ []), ARES_SUCCESS, 1%nat) /\
+    ck_client ck' = rnd 0%nat /\ ck_server_len ck' = 0%nat /\ ck_client_ip ck' = b /\ ck_client_ts ck' = now.
+Proof. exact rotation_on_source_change. Qed.
+Print Assumptions C17_rotation_on_any_source_change.
+
+(* converse: same source address and no timer due -> the same cookie, nothing changes *)
+Theorem C17_stable_on_same_source : forall ck rq b now rnd,
+  rq <> NoOpt -> ip_known b -> tv_ok now -> live_ok ck -> ck_client_ip ck = b ->
+  apply_regress_b ck now = false ->
+  ((ck_state ck =? ARES_COOKIE_SUPPORTED)%Z && elapsed_ge (ck_client_ts ck) now COOKIE_CLIENT_TIMEOUT_MS) = false ->
+  cookie_apply ck rq false b now rnd =
+  Ok (ck, OptCookie (ck_client ck ++ firstn (ck_server_len ck) (ck_server ck)), ARES_SUCCESS, 0%nat).
+Proof. exact stable_on_same_source. Qed.
+Print Assumptions C17_stable_on_same_source.
+
+(* the record always carries the address of the last cookie-bearing transmission *)
+Theorem C17_apply_records_source : forall ck rq a now rnd ck' c st n,
+  rq <> NoOpt -> ip_known a -> tv_ok now -> live_ok ck -> ip_known (ck_client_ip ck) ->
+  cookie_apply ck rq false a now rnd = Ok (ck', OptCookie c, st, n) -> ck_client_ip ck' = a.
+Proof. exact apply_records_source. Qed.
+Print Assumptions C17_apply_records_source.
+
+(* over all histories: after a change of the source address (plain inequality) the client part sent is
+   a random block drawn during that transmission - no two source addresses share a cookie *)
+Theorem C17_source_never_shared : forall evs,
+  Forall wf_event evs -> exists os, exec sys_init evs = Ok os /\ ~ In V_source_shared (judge ghost_init evs os).
+Proof. exact (clean_kind V_source_shared). Qed.
+Print Assumptions C17_source_never_shared.
+
 (* for ALL histories, well-formed or not *)
 Theorem C17_never_on_tcp : forall evs os,
   exec sys_init evs = Ok os -> forall st r n, In (OApply true st r n) os -> cookie_of r = None.
